@@ -149,6 +149,12 @@ def run_bundle(ctx, m, jobs, seeds, reps, threads, stats):
             tsan = parse_tsan(err)
             dones = re.findall(r"^done jobs=(\d+) threads=(\d+) reps=(\d+) executed=(\d+) mismatches=(\d+) nondet=(\d+) loaderr=(\d+)$", out, re.M)
             mism = [l for l in out.split("\n") if l.startswith("mismatch ")]
+            if len(ctx.cov["samples"]) < 6 and not (tsan or mism):
+                for mm in re.finditer(r"^ref job=(\d+) type=\S+ syn=\S+ digest=(\w+)$", out, re.M):
+                    if len(ctx.cov["samples"]) >= 6: break
+                    ctx.cov["samples"].append({"module": m["name"], "job": jobs[int(mm.group(1))][:300], "digest_alone": mm.group(2),
+                                               "yield_seed": sd, "threads": threads, "reps": reps,
+                                               "all_threaded_executions_equal_digest_alone": True})
             nondet = [l for l in out.split("\n") if l.startswith("nondet ")]
             for d in dones:
                 stats["executed"] += int(d[3]); stats["runs"] += 1
@@ -187,8 +193,10 @@ def run(ctx):
             f"({collections.Counter(c for _, _, c in inv['writableGlobals']).most_common()}); "
             f"mutable={mutable}; Globals.lean {'rewritten' if inv['changed'] else 'unchanged'}")
     if new_mut: ctx.log("NEW mutable globals (not in the allowed lists of Props/C19.lean):", new_mut)
+    ctx.log("importers of functions owning a mutable static:", inv["mutableOwnerImporters"],
+            "| non-reentrant libc imports:", [(f, n) for f, n, h in inv["nonReentrantCalls"] if h == "import"])
     ctx.lean()
-    ctx.cov["exhaustive"] = {
+    ctx.cov["globals_inventory"] = {
         "writable_globals_inventory": len(inv["writableGlobals"]),
         "classes": dict(collections.Counter(c for _, _, c in inv["writableGlobals"])),
         "mutable_globals": [{"file": f, "symbol": q, "justification": JUSTIFICATION.get(q, "NOT JUSTIFIED"),
@@ -205,10 +213,10 @@ def run(ctx):
     # ---- P leg
     stats = collections.Counter(); stats["gen_mutable"] = []; stats["by_threads"] = collections.Counter()
     if ctx.quick:
-        nb, ntypes, nvals, reps, threads = 5, 10, 5, 2, "2,4,8,16"
+        nb, ntypes, nvals, reps, threads = 6, 10, 5, 4, "2,4,8,16"
         seeds = [ctx.rng.randrange(1, 1 << 30) for _ in range(3)]
     else:
-        nb, ntypes, nvals, reps, threads = 10, 10, 8, 4, "2,4,8,16"
+        nb, ntypes, nvals, reps, threads = 24, 10, 8, 6, "2,4,8,16"
         seeds = [ctx.rng.randrange(1, 1 << 30) for _ in range(5)]
     mods = c01.gen_bundles(ctx, nb, ntypes=ntypes)
     bm, bvals = genmod.boundary_module(ctx.rng, ctx.quick)
